@@ -113,8 +113,8 @@ Interp(a, v, REG, D) ==
                     ELSE HashLoop2(a.kvs, 1, v, REG, D, [ms |-> <<>>, amb |-> FALSE])
     [] n = "Function" -> LET m == ListLoop(a.args, 1, v, REG, D, [vals |-> <<>>, amb |-> FALSE]) IN
                     IF IsVErr(m) THEN m
-                    ELSE IF a.name \notin REG THEN WithAmb(VErr("unknown"), m.amb)
-                    ELSE WithAmb(Apply(FnOf(a.name), m.ok, REG), m.amb)
+                    ELSE IF a.name \notin DOMAIN REG THEN WithAmb(VErr("unknown"), m.amb)
+                    ELSE WithAmb(ApplyBinding(REG[a.name], a.name, m.ok, REG), m.amb)
     [] n = "Expref" -> VOk(JExpref(a.l))
     [] n = "Slice" -> IF a.step = 0 THEN VErr("slice")
                       ELSE IF v.t # "arr" THEN VOk(JNull)
